@@ -230,10 +230,12 @@ func (c *c15Checker) property(o c15Opts, before, after []string, pb, pa []pkglin
 				if len(pb[i].Parts) == 1 && c15Strip(op[0]+op[1]) == c15Strip(ap[0]+ap[1]) && rt(op) == rt(ap) &&
 					c15Width(ap[0]+ap[1]) <= c15Width(op[0]+op[1]) {
 					// only spaceBeforeValue made the line wider: in a single-line paragraph that is alignValueSingle
-					if sbv == " " {
-						key = "C15/widen72/alignValueSingle/outlier-space"
-					} else {
-						key = "C15/widen72/alignValueSingle"
+					key = "C15/widen72/alignValueSingle"
+					if op[2] == "" && (c15Width(op[0]+op[1]+" "+op[3]) > 72 || c15Width(op[0]+op[1]+" "+strings.TrimRight(op[3], " \t")) > 72) {
+						// the value follows the operator directly and not even a single space fits
+						// into the 72 columns: no canonical separator is possible without widening
+						// (the two clauses of the property collide)
+						key = "C15/widen72/attached-value-no-room"
 					}
 				}
 				fail(key, fmt.Sprintf("%s: %q (%d columns) became %q (%d columns)", o.what, bl, c15Width(bl), al, c15Width(al)))
@@ -316,15 +318,16 @@ func (c *c15Checker) alignFragment(lines []string, source string) {
 	wf := true
 	for _, l := range r1.Before {
 		parsedRaw = append(parsedRaw, l.Raw...)
-		for _, p := range l.Parts {
-			if !c15IsBlank(p[2]) || !c15IsBlank(p[4]) {
+		for i, p := range l.Parts {
+			// the splitter's post-condition that the theorems assume
+			if !c15IsBlank(p[2]) || !c15IsBlank(p[4]) || (p[3] == "" && p[4] != "") || strings.Join(p[:], "") != l.Raw[i] {
 				wf = false
 			}
 		}
 	}
 	if !wf {
-		c.viol("C15/correspondence/splitter-blanks", fmt.Sprintf("VaralignSplitter returned a non-blank spaceBeforeValue/spaceAfterValue for %q", lines),
-			false, c15Size(lines), map[string]any{"kind": "align", "lines": c15hxs(lines), "broken": "assumption: the splitter's space parts are blank"})
+		c.viol("C15/correspondence/splitter-postcondition", fmt.Sprintf("VaralignSplitter broke its post-condition (space parts blank, no space after an empty value, parts recombine to the raw line) for %q", lines),
+			false, c15Size(lines), map[string]any{"kind": "align", "lines": c15hxs(lines), "broken": "assumption wf: the splitter's space parts are blank and String() == raw"})
 		return
 	}
 	r2 := pkglint.VerifVaralign(r1.Lines, "describe")
@@ -361,7 +364,7 @@ func (c *c15Checker) alignFragment(lines []string, source string) {
 	// already is the finding for this input
 	bad := false
 	for _, k := range c.lastFailKeys {
-		if !strings.HasPrefix(k, "C15/widen72/alignValueSingle") && k != "C15/reparse/backslash-run-before-continuation" {
+		if !strings.HasPrefix(k, "C15/widen72/") && k != "C15/reparse/backslash-run-before-continuation" {
 			bad = true
 		}
 	}
@@ -974,6 +977,7 @@ var c15Corpus = [][]string{
 	{"LONG_VARNAME_1=\tx", "A=\t" + "123456789012345678901234567890123456789012345678901234567890"}, // DESIGN 8-8
 	{"X=\tv \\", "        a\\\\\\", "\tw"},                                                          // backslash run before the continuation
 	{"V != "},
+	{"LONG_VARNAME_1=\tx", "E=" + "1234567890123456789012345678901234567890123456789012345678901234567890"}, // attached value, 72 columns
 	{"#VAR =\tvalue", "OTHER=\tx"},
 }
 
